@@ -287,6 +287,12 @@ static void exec_op(int idx, OpLine *o)
         int rc = kalign(seqs, lens, n, nthreads, type, gpo, gpe, tgpe, &aligned, &alen);
         leave();
         fprintf(g_out, "r %d A rc=%d alen=%d\n", idx, rc, alen);
+        if (rc == 0 && aligned && alen > 0) {
+            /* C10 on the rows the caller gets: with no zero-length input, row i is the sequence of rank i */
+            int all = 1;
+            for (int i = 0; i < n; i++) if (lens[i] <= 0) all = 0;
+            if (all) hooks_c10_final_rows(aligned, n, alen);
+        }
         if (rc == 0 && aligned) {
             /* kalign() returns one row per non-empty input sequence; the caller knows how many that is */
             int nout = 0;
@@ -315,6 +321,23 @@ static void exec_op(int idx, OpLine *o)
         int rc = kalign_run(g_slot[sl], atoi(o->tok[2]), atoi(o->tok[3]), parse_f(o->tok[4]), parse_f(o->tok[5]), parse_f(o->tok[6]));
         leave();
         if (rc == 0) g_slot_final[sl] = 1;
+        if (rc == 0 && g_slot[sl] && g_slot[sl]->aligned == ALN_STATUS_FINAL && g_slot[sl]->alnlen > 0) {
+            /* C10 on the finalised rows of the object (what every writer emits) */
+            struct msa *m = g_slot[sl];
+            int maxr = -1;
+            for (int i = 0; i < m->numseq; i++) if (m->sequences[i]->rank > maxr) maxr = m->sequences[i]->rank;
+            if (maxr >= 0 && maxr < 10000000) {
+                char **byrank = sim_xcalloc((size_t)maxr + 1, sizeof(char *));
+                int ok = 1;
+                for (int i = 0; i < m->numseq; i++) {
+                    int r = m->sequences[i]->rank;
+                    if (r < 0 || byrank[r] || strnlen(m->sequences[i]->seq, (size_t)m->alnlen) != (size_t)m->alnlen) { ok = 0; break; }
+                    byrank[r] = m->sequences[i]->seq;
+                }
+                if (ok) hooks_c10_final_rows(byrank, maxr + 1, m->alnlen);
+                sim_xfree(byrank);
+            }
+        }
         fprintf(g_out, "r %d X rc=%d\n", idx, rc);
         if (rc != 0) { g_failed = 1; g_slot_failed[sl] = 1; }
     } else if (!strcmp(op, "W")) {
@@ -382,6 +405,15 @@ static void exec_op(int idx, OpLine *o)
         fprintf(g_out, "r %d CLI rc=%d\n", idx, rc);
         for (int i = 0; i <= n; i++) sim_xfree(argv_copy[i]);
         sim_xfree(argv); sim_xfree(argv_copy);
+    } else if (!strcmp(op, "T")) {
+        /* T nthreads n: self-test of the simulated OpenMP runtime under this plan's schedule (sim/omptest.c) */
+        extern int sim_omp_selftest(int nthreads, int n, char *msg, size_t msglen);
+        char msg[512];
+        enter();
+        int bad = sim_omp_selftest(atoi(o->tok[1]), atoi(o->tok[2]), msg, sizeof msg);
+        leave();
+        fprintf(g_out, "r %d T rc=%d msg=%s\n", idx, bad, bad ? msg : "-");
+        if (bad) sim_note_violation("H_OMP_SELFTEST", "%s", msg);
     } else if (!strcmp(op, "K")) {
         if (!strcmp(o->tok[1], "clock_jump")) simclock_jump(strtoll(o->tok[2], NULL, 0));
         else set_world(o->tok[1], o->tok[2]);
@@ -391,7 +423,10 @@ static void exec_op(int idx, OpLine *o)
         simalloc_dump_live(g_out, 8);
         fputc('\n', g_out);
     } else sim_fatal("HARNESS", "unknown op %s", op);
+    /* the watchdog times kalign code, not the transfer of (possibly many MB of) results to a busy orchestrator */
+    alarm(0);
     simfs_emit_outputs(g_out, idx);
+    alarm((unsigned)g_wall_limit);
 }
 
 static void run_plan(void)
@@ -477,7 +512,7 @@ int main(int argc, char **argv)
     stack_t ss = { .ss_sp = altstack, .ss_size = sizeof altstack, .ss_flags = 0 };
     sigaltstack(&ss, NULL);
     struct sigaction sa; memset(&sa, 0, sizeof sa);
-    sa.sa_handler = sig_handler; sa.sa_flags = SA_ONSTACK;
+    sa.sa_handler = sig_handler; sa.sa_flags = SA_ONSTACK | SA_RESTART;   /* a watchdog tick must not make a blocked write() of the result channel fail with EINTR (stdio would drop the data) */
     sigaction(SIGALRM, &sa, NULL);
 #ifndef SIM_ASAN
     if (!RUNNING_ON_VALGRIND) { sigaction(SIGSEGV, &sa, NULL); sigaction(SIGBUS, &sa, NULL); sigaction(SIGFPE, &sa, NULL); sigaction(SIGABRT, &sa, NULL); sigaction(SIGILL, &sa, NULL); }
